@@ -306,3 +306,83 @@ pub fn mate_cert(args: &Args) {
     out.finish();
     println!("{}", json!({"roots": n_roots, "with_forced_mate_within_5": n_mates, "solver_budget_exhausted": n_exhausted, "engine_searches": n_searches}));
 }
+
+/// wv mate-mine --count N --seed S --out f : (untrusted) miner of forced mates within 5 plies whose only mate-keeping
+/// first moves are under-promotions. Prints FENs; what they claim is re-derived by `mate-cert` and checked by TLC.
+pub fn mate_mine(args: &Args) {
+    use rand::{Rng, SeedableRng};
+    quiet_panics();
+    let count: usize = args.num("--count", 10);
+    let seed: u64 = args.num("--seed", 1);
+    let tries: usize = args.num("--tries", 400_000);
+    let mut rng = rand_chacha::ChaCha8Rng::seed_from_u64(seed);
+    let mut out = Out::new(args.get("--out"));
+    let mut found = std::collections::BTreeSet::new();
+    for _ in 0..tries {
+        if found.len() >= count { break; }
+        let mut board = vec!['.'; 64];
+        let mut free: Vec<usize> = (0..64).collect();
+        let mut take = |rng: &mut rand_chacha::ChaCha8Rng, pred: &dyn Fn(usize) -> bool| -> Option<usize> {
+            let c: Vec<usize> = free.iter().cloned().filter(|s| pred(*s)).collect();
+            if c.is_empty() { return None; }
+            let s = c[rng.gen_range(0..c.len())];
+            free.retain(|x| *x != s);
+            Some(s)
+        };
+        let pawn = take(&mut rng, &|s| s / 8 == 6).unwrap();
+        board[pawn] = 'P';
+        let wk = take(&mut rng, &|_| true).unwrap();
+        board[wk] = 'K';
+        let bk = match take(&mut rng, &|s| ((s / 8) as i32 - (wk / 8) as i32).abs() > 1 || ((s % 8) as i32 - (wk % 8) as i32).abs() > 1) { Some(s) => s, None => continue };
+        board[bk] = 'k';
+        for _ in 0..rng.gen_range(0..3) {
+            let pc = ['Q', 'R', 'B', 'N', 'B', 'N'][rng.gen_range(0..6)];
+            if let Some(s) = take(&mut rng, &|_| true) { board[s] = pc; }
+        }
+        for _ in 0..rng.gen_range(0..3) {
+            let pc = ['r', 'b', 'n', 'p', 'p', 'q'][rng.gen_range(0..6)];
+            if let Some(s) = take(&mut rng, &|s| pc != 'p' || (s / 8 >= 1 && s / 8 <= 6)) { board[s] = pc; }
+        }
+        let mut rows = vec![];
+        for r in (0..8).rev() {
+            let mut row = String::new();
+            let mut gap = 0;
+            for f in 0..8 {
+                let c = board[r * 8 + f];
+                if c == '.' { gap += 1; } else { if gap > 0 { row.push_str(&gap.to_string()); gap = 0; } row.push(c); }
+            }
+            if gap > 0 { row.push_str(&gap.to_string()); }
+            rows.push(row);
+        }
+        let place = rows.join("/");
+        // the side that is not to move must not be in check
+        let flipped = state_of_fen(&format!("{} b - - 0 1", place));
+        if flipped.is_check() { continue; }
+        let fen = format!("{} w - - 0 1", place);
+        let root = state_of_fen(&fen);
+        let moves = MoveGenerator::compute_legal_moves(&root);
+        if !moves.moves().iter().any(|r| r.0.promotion().is_some()) { continue; }
+        let mut n_found = None;
+        for n in [1usize, 3, 5] {
+            let mut budget = 150_000i64;
+            if win_in(&root, n, None, &mut budget).is_some() { n_found = Some(n); break; }
+            if budget < 0 { break; }
+        }
+        let Some(n) = n_found else { continue };
+        if n < 3 { continue; }
+        let mut keepers = vec![];
+        let mut exhausted = false;
+        for r in moves.moves().iter() {
+            let mut budget = 150_000i64;
+            if win_in(&root, n, Some(r.0), &mut budget).is_some() { keepers.push(r.0); }
+            if budget < 0 { exhausted = true; break; }
+        }
+        if exhausted || keepers.is_empty() { continue; }
+        if keepers.iter().all(|m| matches!(m.promotion(), Some(p) if p != Piece::Queen)) && found.insert(fen.clone()) {
+            out.raw(&format!("{}  # mate in {} plies only by {}", fen, n, keepers.iter().map(mv_str).collect::<Vec<_>>().join(" ")));
+            out.flush();
+        }
+    }
+    out.finish();
+    println!("{}", json!({"found": found.len()}));
+}
